@@ -81,8 +81,8 @@ PROP["theorems"] += ["Gnmi.C08Expire." + t for t in [
     "expire_pointwise", "blocked_only_while_gated", "expire_terminates", "expire_terminates_fields",
     "stall_persists", "stalled_until_expire", "dead_stays_silent", "expired_stays_silent",
     "expire_noninterference", "expire_only_blocked",
-    # non-vacuity; and why dead_stays_silent needs "holds no response" (a model-only artefact, see the docstring)
-    "st0_reachable", "st0_subs", "st0_after_expire", "eof_while_blocked_witness", "not_dead_stays_silent_any",
+    # non-vacuity; a half-close while a response is held drops it (Sub.eof repaired; corpus/C05/eof_with_response_held.ops)
+    "st0_reachable", "st0_subs", "st0_after_expire", "eof_while_blocked_witness", "eof_stays_silent",
 ]] + ["Gnmi.SubEnd." + t for t in [
     "pump_frame", "pump_quiet", "subscribe_inv", "step_pointwise", "step_at", "run_at", "run_inv", "reachable_inv",
     "subStep_dead", "subRun_dead", "subStep_blocked", "expireF_blocked", "expireF_other",
@@ -93,5 +93,6 @@ PROP["manifest"]["level_text"] += (
     "subscriber holding a response it cannot send is ended by expire: not running, error status 'unknown', out unchanged), stall_persists / "
     "stalled_until_expire (until the timeout or an operation of its own client or flow control it stays inside Send, holding the same response, "
     "and is sent nothing), dead_stays_silent / expired_stays_silent (a subscriber that is not running and holds no response is never sent "
-    "anything again and never changes status, whatever follows), expire_noninterference / expire_only_blocked (expire changes neither the cache "
+    "anything again and never changes status, whatever follows; eof_stays_silent: in particular a POLL subscriber after its half-close, "
+    "also when its sender was inside a gated Send — the held response is dropped with the stream, as on the real server), expire_noninterference / expire_only_blocked (expire changes neither the cache "
     "nor any subscriber that is not itself running and inside Send; in the model expire is the timeout of every sender that is inside Send).")
